@@ -420,6 +420,23 @@ class Models:
         E["numpy.absolute"] = b_abs
         E["numpy.abs"] = b_abs
 
+        def np_isclose(self, it, args, kw, fr, node):
+            # scalar numpy.isclose(a, b, rtol=1e-05, atol=1e-08):  |a - b| <= atol + rtol * |b|   (exact over the reals;
+            # nan / inf operands are outside the encoding, like everywhere else: machine floats are treated as reals)
+            a, b = it.run.num(args[0]), it.run.num(args[1])
+            rtol = it.run.num(kw["rtol"]) if "rtol" in kw else (it.run.num(args[2]) if len(args) > 2 else z3.RealVal("1/100000"))
+            atol = it.run.num(kw["atol"]) if "atol" in kw else (it.run.num(args[3]) if len(args) > 3 else z3.RealVal("1/100000000"))
+            if any(isinstance(v, SArr1) for v in (a, b)):
+                raise Unsupported("numpy.isclose on arrays", node)
+            if not any(is_z3(v) for v in (a, b, rtol, atol)):
+                return abs(a - b) <= atol + rtol * abs(b)
+            a, b = (z3.RealVal(v) if not is_z3(v) else to_real(b2i(v)) for v in (a, b))
+            rtol, atol = (z3.RealVal(v) if not is_z3(v) else to_real(v) for v in (rtol, atol))
+            absf = lambda v: z3.If(v >= 0, v, -v)
+            self.note(it, "exact:numpy.isclose of two scalars (|a - b| <= atol + rtol * |b| over the reals)")
+            return absf(a - b) <= atol + rtol * absf(b)
+        E["numpy.isclose"] = np_isclose
+
         def minmax(is_max):
             def f(self, it, args, kw, fr, node):
                 if len(args) == 1:
